@@ -21,13 +21,18 @@ from .values import NDArr, Obj, FuncRef, is_sym, to_z3, as_int_term, concrete_in
 
 
 class Contract:
-    def __init__(self, qual, requires=None, spec=None, doc="", permitted_raises=None, clause=""):
+    def __init__(self, qual, requires=None, spec=None, doc="", permitted_raises=None, clause="", extract=None):
         self.qual = qual
         self.requires = requires
         self.spec = spec
         self.doc = doc
         self.permitted_raises = permitted_raises  # callable(I, exc_name, *args) -> bool  (abrupt exit allowed?)
         self.clause = clause
+        # relational contracts: free choices of the implementation (which pivot row, which random bit ...) are
+        # existentially specified.  extract(I_body, ret_b) -> dict of the body's actual choices; the spec reads them from
+        # I.choice and must *prove* their characterisation (claim -> obligation).  At call sites I.choice is None: the spec
+        # creates fresh symbols and *assumes* the characterisation.
+        self.extract = extract
 
     def bind(self, interp, args, kwargs):
         m, node, cls = source.find(self.qual)
@@ -94,7 +99,7 @@ class Equiv:
             return
         if isinstance(vb, Obj) and isinstance(vs, Obj):
             self.seen.add(key)
-            if vb.cls is not vs.cls:
+            if (vb.cls.module, vb.cls.name) != (vs.cls.module, vs.cls.name):
                 self.ob(label + ".class", z3.BoolVal(False))
                 return
             self.same_identity(label, vb, vs)
@@ -229,19 +234,27 @@ class Task:
                 if not eng.feasible(path.pc):
                     eng.record(f"{self.label}:vacuity", "refuted", 0, "precondition unsatisfiable", None)
                     raise PathEnd()
-            # spec first (pure symbolic, cannot fail), then the real body
+            # the real body first, then the spec on the untouched second copy of the inputs
             Is = Interp(path, self.contracts, self.inline, dict(self.hooks))
             Is.stack.append(Frame(m.name, {}, self.label + ".spec"))
+            Is.claim_label = self.label
             spec = self.spec_override or self.contract.spec
             spec_raise = None
+            body_raise = None
+            try:
+                ret_b = I.call_function(f, list(args_b), {}, force_body=True)
+            except RaiseEx as e:
+                body_raise = e
+                ret_b = None
+            if body_raise is None and self.contract.extract is not None:
+                Is.choice = self.contract.extract(I, ret_b)
             try:
                 ret_s = spec(Is, *args_s)
             except RaiseEx as e:
                 spec_raise = e
                 ret_s = None
-            try:
-                ret_b = I.call_function(f, list(args_b), {}, force_body=True)
-            except RaiseEx as e:
+            if body_raise is not None:
+                e = body_raise
                 ok = spec_raise is not None and spec_raise.exc_name == e.exc_name
                 if not ok and self.contract.permitted_raises is not None:
                     ok = bool(self.contract.permitted_raises(I, e.exc_name, *args_b))
@@ -281,6 +294,15 @@ class Task:
                     r.witness, r.replayed = self.replay(r.model)
                 except Exception as e:  # noqa: BLE001 - a failed replay leaves the obligation refuted-without-input
                     r.witness, r.replayed = {"replay_error": f"{type(e).__name__}: {e}"}, False
+        need = [r for r in eng.results.values() if r.status == "refuted" and not r.replayed]
+        if need and self.inputs is not None:
+            w = self.search_failing_input()
+            if w is not None:
+                for r in need:
+                    r.witness, r.replayed = w, True
+        for r in eng.results.values():
+            if r.status == "refuted" and r.detail.startswith("RELAXED") and not r.replayed:
+                r.status = "undecided"  # a relaxed model that does not replay proves nothing
         return eng
 
     def replay(self, model):
@@ -290,6 +312,30 @@ class Task:
 
         env = {}
         concs = [it.concrete(model, env) for it in self.inputs]
+        return self.replay_concrete(concs)
+
+    def search_failing_input(self, tries=400, seed=0):
+        """DESIGN 2.6(3): when an obligation fails without a replayable model, look for a real failing input of the
+        contract among random small inputs (real function vs. the contract evaluated concretely)"""
+        import numpy as np
+
+        rng = np.random.default_rng(seed)
+        for _ in range(tries):
+            env = {}
+            try:
+                concs = [it.random(rng, env) for it in self.inputs]
+                wit, ok = self.replay_concrete(concs)
+            except Exception:  # noqa: BLE001
+                continue
+            if ok:
+                wit["found_by"] = "random search over small inputs after the obligation failed"
+                return wit
+        return None
+
+    def replay_concrete(self, concs):
+        from . import schema
+        from .interp import Frame
+
         wit = {"function": self.qual, "args": {it.name: it.jsonable(c) for it, c in zip(self.inputs, concs)}}
         m, node, cls = source.find(self.qual)
         path = Path(Engine(2000), [])
@@ -302,11 +348,6 @@ class Task:
             if not z3.is_true(pre):
                 wit["note"] = "model completion does not satisfy the precondition; not replayed"
                 return wit, False
-        try:
-            expected = (self.spec_override or self.contract.spec)(I, *cargs)
-            spec_exc = None
-        except RaiseEx as e:
-            expected, spec_exc = None, e.exc_name
         real_args = [it.real(c) for it, c in zip(self.inputs, concs)]
         try:
             fn = schema.real_callable(self.qual)
@@ -314,6 +355,18 @@ class Task:
             real_exc = None
         except Exception as e:  # noqa: BLE001
             got, real_exc = None, f"{type(e).__name__}: {e}"
+        I.claim_label = self.label
+        if self.contract.extract is not None and real_exc is None:
+            try:
+                I.choice = self.contract.extract(None, got)
+            except ValueError as e:
+                wit["note"] = f"not replayable: {e}"
+                return wit, False
+        try:
+            expected = (self.spec_override or self.contract.spec)(I, *cargs)
+            spec_exc = None
+        except RaiseEx as e:
+            expected, spec_exc = None, e.exc_name
         if real_exc is not None or spec_exc is not None:
             if (real_exc or "").split(":")[0] == (spec_exc or ""):
                 wit["note"] = "real code raises what the contract prescribes"
@@ -321,7 +374,12 @@ class Task:
             wit["actual"] = f"raises {real_exc}" if real_exc else "returns normally"
             wit["expected"] = f"raises {spec_exc}" if spec_exc else "returns normally with the contract's result"
             return wit, True
-        d = schema.diff(got, expected, "return")
+        d = None
+        for nm, r in path.engine.results.items():
+            if r.status == "refuted" and ":choice." in nm:
+                d = f"the implementation's choice violates its characterisation {nm.split(':choice.')[1]}"
+        if d is None:
+            d = schema.diff(got, expected, "return")
         if d is None:
             for it, ra, ca in zip(self.inputs, real_args, cargs):
                 d = schema.diff(ra, ca, f"arg {it.name}")
